@@ -103,6 +103,23 @@ def impl_env():
     return env
 
 
+def build_cshim(name, sources):
+    """compile harness/cdriver/<sources> together with /repo's C writer into <impl>/<name>.so"""
+    d = build_impl()
+    so = os.path.join(d, name + ".so")
+    if os.path.exists(so):
+        return so
+    cmd = ["gcc", "-O1", "-g", "-shared", "-fPIC", "-w", "-o", so,
+           os.path.join(REPO, "c/lib/rf_write_hdf5.c")] + \
+          [os.path.join(VERIF, "harness", "cdriver", x) for x in sources] + \
+          ["-I" + os.path.join(REPO, "c/include"), "-I/usr/include/hdf5/serial",
+           "-L/usr/lib/x86_64-linux-gnu", "-lhdf5_serial", "-lz", "-lm"]
+    p = subprocess.run(cmd, capture_output=True, text=True)
+    if p.returncode != 0:
+        raise Broken("C shim does not compile:\n" + p.stderr[-3000:])
+    return so
+
+
 def scratch_dir(prefix="drfwork-"):
     d = tempfile.mkdtemp(prefix=prefix)
     atexit.register(shutil.rmtree, d, True)
